@@ -38,7 +38,12 @@ PREPROCESSORS = ['drop_rem', 'cut20', 'drop_first', 'cut_left2']
 
 
 def fill(shape):
-    d = st.text(alphabet='0123456789', min_size=1, max_size=4)
+    d = st.integers(0, 7).flatmap(
+        lambda k: st.text(alphabet='0123456789', min_size=1, max_size=4)
+        if k else
+        # decimal digits of other scripts: \d matches them too
+        st.sampled_from(['\u0663', '\u0664\u0665', '\uff17', '\u0967\u0968',
+                         '4\u0662']))
     if shape == 'd3':
         return st.text(alphabet='0123456789', min_size=3, max_size=3)
     if shape == 'd1':
